@@ -91,13 +91,13 @@ CLAIMED = {
              note=TB + 'Open known finding complete-stale: the full completeness statement (no more keys than slots => every complete in-order run delivered) is machine-checked FALSE (C02_rx_complete_false, witness replayed on the C++); '
                   'the proved completeness needs a place at the first frame and the 100 ms slot-age hypothesis.  No ordering statement for deliveries; ISO-TP deliveries are C10.',
              design='6 C02', technique='Coq invariant proof over executable model + extracted-model/implementation correspondence'),
- 'C12': dict(ready=False, text='Theorems about the heartbeat part of the node model: the next time is always the least grid point offset+k*period after now (late polling delays, never shifts); for every poll pattern a heartbeat is sent at '
+ 'C12': dict(text='Theorems about the heartbeat part of the node model: the next time is always the least grid point offset+k*period after now (late polling delays, never shifts); for every poll pattern a heartbeat is sent at '
                   'the first poll at or after each grid point; the interval field is the configured interval in 10 ms units for the whole settable range 1000..655320 ms and the sequence counter runs 0..252 and wraps, for '
                   'every history; clipping of application values; re-enabling and Open() resynchronise the scheduler; nodes that are not active bus devices (modes, unopened, claim pending) send none.',
              note=TB + 'Two defects found by the proofs were repaired in /repo (9a9419c re-enable, e3d90bc resync after SetSyncOffset).  The group-function path to the interval is C09.  Driver acceptance is a hypothesis of hb_schedule '
                   '(a refused heartbeat is not retried: it is skipped, as in the code).',
              design='6 C12', technique='Coq proof over executable model + extracted-model/implementation correspondence'),
- 'C13': dict(ready=False, text='node_shift_run: for every group-function reaction that commutes with a clock shift, every cold node and every operation list, the run with the clock origin moved by any d (both scheduler builds; 32-bit '
+ 'C13': dict(text='node_shift_run: for every group-function reaction that commutes with a clock shift, every cold node and every operation list, the run with the clock origin moved by any d (both scheduler builds; 32-bit '
                   'wrap and the 64-bit roll counter included, polls at most 2^32-1 ms apart) yields the same events, and the final states are related by the shift; primitives (N2kIsTimeBefore, N2kHasElapsed, tN2kScheduler, '
                   'tN2kSyncScheduler, slot ageing, N2kMillis64) are shift-invariant and timers armed before the wrap fire on time.  Metamorphic correspondence: every generated history is run at several origins in the C++ '
                   'and in the model and the relative-time traces compared.',
